@@ -96,6 +96,9 @@ def _f15(vio):
     return vio.get("kind") == "process-death" and "is_subrange_equal" in _report(vio)
 
 
+C06_KINDS = ("sort-predicate", "unexpected-error", "wrong-value")
+
+
 def _layouts(vio):
     case = vio.get("case") or {}
     out = [case["layout"]] if isinstance(case.get("layout"), dict) else []
@@ -260,10 +263,111 @@ def _f10b(vio):
     return pos < hi - 1          # not the innermost axis
 
 
+OPTC = ("IndexedOptionArray", "ByteMaskedArray", "BitMaskedArray", "UnmaskedArray")
+
+
+def _list_with_origin_over_option(vio):
+    from vlib import model
+    for d in _layouts(vio):
+        for _p, n in model.walk(d):
+            if n["c"] in ("ListOffsetArray", "ListArray"):
+                first = (n.get("offsets") or n.get("starts"))["v"][:1]
+                if first and first[0] != 0:
+                    return _has_class(vio, OPTC)
+    return False
+
+
 @mechanism("F35-sort-options-offset-origin")
 def _f35(vio):
-    return vio.get("kind") == "value-differs" and _op_of(vio).get("op") in ("sort", "argsort") and \
-        _has_class(vio, ("IndexedOptionArray", "ByteMaskedArray", "BitMaskedArray", "UnmaskedArray"))
+    if _op_of(vio).get("op") not in ("sort", "argsort"):
+        return False
+    if vio.get("kind") == "value-differs":
+        return _has_class(vio, OPTC)
+    return vio.get("kind") in C06_KINDS and _list_with_origin_over_option(vio)
+
+
+@mechanism("F41-unstable-sort-nan")
+def _f41(vio):
+    from vlib import model
+    op = _op_of(vio)
+    if vio.get("kind") not in C06_KINDS + ("value-differs",) or op.get("op") != "sort" or op.get("stable"):
+        return False
+    for d in _layouts(vio):
+        for _p, n in model.walk(d):
+            if n["c"] == "NumpyArray" and n["dtype"] in ("float32", "float64"):
+                import numpy as np
+                if np.isnan(model.np_view(n)).any():
+                    return True
+    return False
+
+
+@mechanism("F42-argsort-all-missing")
+def _f42(vio):
+    from vlib import model
+    if vio.get("kind") not in C06_KINDS or _op_of(vio).get("op") != "argsort":
+        return False
+    if "does not have the input's depth" not in str((vio.get("detail") or {}).get("why", "")):
+        return False
+    return _has_class(vio, OPTC) and "None" in str((vio.get("detail") or {}).get("input", ""))
+
+
+def _T_has(T, pred):
+    if pred(T):
+        return True
+    for k in ("e",):
+        if k in T and isinstance(T[k], dict) and _T_has(T[k], pred):
+            return True
+    for k in ("fields", "arms"):
+        for x in T.get(k, []) or []:
+            if _T_has(x, pred):
+                return True
+    return False
+
+
+def _axis_is_outer(vio):
+    from vlib import gen
+    case = vio.get("case") or {}
+    T, op = case.get("T"), _op_of(vio)
+    if not T or "axis" not in op:
+        return False
+    hi = gen.depth_of(T)[1]
+    ax = op["axis"]
+    pos = ax if ax >= 0 else hi + ax
+    return pos < hi - 1
+
+
+
+
+
+@mechanism("F10c-sort-outer-axis")
+def _f10c(vio):
+    return vio.get("kind") in C06_KINDS and _op_of(vio).get("op") in ("sort", "argsort") and _axis_is_outer(vio)
+
+
+@mechanism("F36-sort-missing-lists")
+def _f36(vio):
+    case = vio.get("case") or {}
+    T = case.get("T")
+    if vio.get("kind") not in C06_KINDS or _op_of(vio).get("op") not in ("sort", "argsort") or not T:
+        return False
+    return _T_has(T, lambda t: t["t"] == "option" and t["e"]["t"] in ("list", "regular"))
+
+
+@mechanism("F38-argsort-option-strings")
+def _f38(vio):
+    case = vio.get("case") or {}
+    T = case.get("T")
+    if vio.get("kind") not in C06_KINDS or _op_of(vio).get("op") != "argsort" or not T:
+        return False
+    return _T_has(T, lambda t: t["t"] == "option" and t["e"]["t"] in ("string", "bytes"))
+
+
+@mechanism("F39-string-sort-descending-stability")
+def _f39(vio):
+    case = vio.get("case") or {}
+    op = _op_of(vio)
+    return vio.get("kind") == "sort-predicate" and case.get("strings") and op.get("stable") and \
+        not op.get("ascending") and "stability" in str((vio.get("detail") or {}).get("why", ""))
 
 
 @mechanism("F10-reduce-nonlocal")
